@@ -536,6 +536,9 @@ class Interp:
             if isinstance(recv, list) and short == "append":
                 recv.append(args[0])
                 return None
+            if isinstance(recv, list) and short == "extend" and len(args) == 1 and not kw:
+                recv.extend(self.iterate(args[0]))
+                return None
             if isinstance(recv, (I, Aff, D)) or isinstance(recv, (int, float)):
                 # methods that plain Python floats do not have
                 self.float_methods.append((n, short))
@@ -544,6 +547,8 @@ class Interp:
                     return t
                 raise DomainError("method .%s() called on a float value (%s): plain Python floats have no such method" % (short, text(n.func.value)))
         if nm.startswith(("np.", "numpy.", "math.")) or nm in NP_FUNCS or nm in ("exp", "sqrt", "cos", "sin", "fabs", "log"):
+            if kw:
+                raise Unsupported("keyword arguments in library call %s" % text(n))
             if short in NP_FUNCS and len(args) == 1 and self.concrete_lib and not isinstance(args[0], (I, Aff)):
                 f = NP_FUNCS[short]
                 return abs(args[0]) if f == "abs" else getattr(math, f)(args[0])
@@ -567,6 +572,8 @@ class Interp:
             if short in ("floor", "ceil") and len(args) == 1 and not isinstance(args[0], I):
                 return getattr(math, short)(args[0])
             raise Unsupported("library call %s" % nm)
+        if kw and nm in ("abs", "pow", "len", "range", "zip", "sum", "float", "int", "min", "max", "round", "sorted", "list", "tuple"):
+            raise Unsupported("keyword arguments in %s" % text(n))
         if nm == "abs" and len(args) == 1:
             if isinstance(args[0], D):
                 return d_func("abs", args[0])
@@ -583,8 +590,11 @@ class Interp:
             if all(isinstance(a, int) or (isinstance(a, float) and a.is_integer()) for a in args):
                 return list(range(*[int(a) for a in args]))
             raise Unsupported("range with non-concrete bounds %s" % text(n))
-        if nm == "enumerate" and len(args) == 1:
-            return [[i, v] for i, v in enumerate(self.iterate(args[0]))]
+        if nm == "enumerate" and 1 <= len(args) <= 2:
+            start = args[1] if len(args) == 2 else kw.pop("start", 0)
+            if kw or not isinstance(start, int) or isinstance(start, bool):
+                raise Unsupported("enumerate with %s" % text(n))
+            return [[i, v] for i, v in enumerate(self.iterate(args[0]), start)]
         if nm == "zip":
             return [list(t) for t in zip(*[self.iterate(a) for a in args])]
         if nm == "sum" and len(args) >= 1:
